@@ -3750,6 +3750,18 @@ where
     }
 }
 
+#[cfg(libp2p_verif)]
+impl<D, F> Behaviour<D, F>
+where
+    D: DataTransform + Send + 'static,
+    F: TopicSubscriptionFilter + Send + 'static,
+{
+    /// Verification hook (pure component checks): one heartbeat, as `poll` runs it on the timer.
+    pub fn verif_pure_heartbeat(&mut self) {
+        self.heartbeat()
+    }
+}
+
 /// This is called when peers are added to any mesh. It checks if the peer existed
 /// in any other mesh. If this is the first mesh they have joined, it queues a message to notify
 /// the appropriate connection handler to maintain a connection.
